@@ -25,6 +25,8 @@ OPS = {
     "shuf": "create_random_shuffles (NumPy MT19937 + legacy shuffle, modelled in Model/Shuffle.lean)",
     "gen": "the definitions generated from dsw/operation.py by harness/py2lean.py (DswModel.Gen.Operation)",
     "rna": "remove_nasty_arc", "flt": "LocalBioFilter.__init__/valid", "cap": "approximate_capacity (power iteration)",
+    "capf": "approximate_capacity in double precision, operation by operation (Model/CapacityF.lean), compared bit for bit",
+    "fop": "the float primitives of the Python fragment (Model/Float.lean)",
 }
 
 
